@@ -94,7 +94,9 @@ def r_schema_register(P, rep, ctx, rule):
     rep.check("self._schemas.add(schema_ref)" in t and "self._update_parents_children(schema_ref, parents)" in t, rule, fi.qual, "in-memory tables are updated", fi.loc(), construct="table update", message="_register does not update _schemas / parents / children")
     tests = [x for x in g.nodes if x.kind == "test" and "self._pkgs._providers" in norm(x.exprs[0])]
     regp = [n.idx for n in g.nodes if any(norm(c.func) == "self._pkgs._register" for c in g.calls(n.idx))]
-    rep.check(bool(tests) and bool(regp) and all(any(g.edge_dominates(x.idx, "T", r) for x in tests) for r in regp), rule, fi.qual, "a providing package is stored when no stored package provides the schema", fi.loc(), construct="provider registration",
+    accepted = ("not self._pkgs._providers.get(schema_ref, [])", "not self._pkgs._providers.get(schema_ref)", "len(self._pkgs._providers.get(schema_ref, [])) == 0", "schema_ref not in self._pkgs._providers")
+    tests = [x for x in tests if norm(x.exprs[0]) in accepted]
+    rep.check(bool(tests) and bool(regp) and all(any(g.edge_dominates(x.idx, "T", r) for x in tests) for r in regp) and all(g.every_path_passes(regp, g.exit, src=x.idx, src_label="T") for x in tests), rule, fi.qual, "a providing package is stored when no stored package provides the schema", fi.loc(), construct="provider registration",
               message="_register never stores the providing package's metadata")
     rep.check("env_pkg_info: PluginPkgMeta = schemas.provider(schema_cls.Plugin.ref())" in t and "pkg_name_ver = (str(env_pkg_info.name), env_pkg_info.version)" in t and "self._pkgs._register(pkg_name_ver, env_pkg_info)" in t, rule, fi.qual,
               "the stored package info is what the plugin system reports as provider of that schema", fi.loc(), construct="provider source", message="_register does not store schemas.provider(<schema ref>) as PluginPkgMeta under (name, version)")
